@@ -1,6 +1,7 @@
 import PromModel.Tsdb.WalFrame
 import PromModel.Suites.WalSuite
 import PromProofs.WalRoundtrip
+import PromProofs.WalLayout
 /-
   C13 — The write-ahead log returns exactly the records written.
   Property theorems only; the model is PromModel/Tsdb/WalFrame.lean, helper lemmas are in
@@ -61,5 +62,50 @@ theorem frag_fuel_enough (ps : Nat) (crc : Crc) (hps : WF ps) (a : Nat) (ha : a 
   rw [List.append_nil] at e
   rw [e, rloop_nil]
   simp [prep, eofStatus_nonTorn hty']
+
+
+/-- **Page layout.** Every segment file is a sequence of pages of exactly `ps` bytes, and every page
+    consists of whole fragments (`type len16 crc32 data`, type ∈ full/first/middle/last) followed by
+    zero bytes only: no fragment straddles a page, nothing but zeros follows the last fragment. -/
+theorem page_layout_inv (ps pps : Nat) (crc : Crc) (hps : WF ps) (batches : List (List Bytes)) :
+    ∀ seg ∈ segments ps (logAll ps pps crc batches),
+      ∃ pages : List Bytes, seg = pages.flatten ∧
+        ∀ p ∈ pages, p.length = ps ∧ ∃ fs k, Frames crc fs ∧ p = fs ++ zeros k :=
+  (LInv.logAll pps hps.1 batches).segments
+
+/-! ### LiveReader
+
+  The model (`lrReadRecord`, `lrBuild`, `lrNext`, `lrDrain`, `liveRun`) transcribes live_reader.go and is
+  tied to the real `LiveReader` by the suite `wal` (ops `liveread`, `liveall`, `livecuts`, `livemut`) at
+  every `Log` boundary and at generated prefix lengths around fragment headers/ends and page ends.
+  The general theorem below is **not proved** in this revision; it needs an invariant relating the
+  LiveReader's buffer window `(buf, readIndex, total, index, pre)` to the position in the fragment
+  structure given by `page_layout_inv` across arbitrary partial fills, which was not completed.
+  What is proved is the instance `live_reader_small_witness`. -/
+
+/-- Full statement: for every segment file of every log and every way of observing it grow (`chunks` =
+    the successive pieces appended between observations, any lengths, `chunks.flatten = seg`), the
+    LiveReader drained after each observation never reports corruption, and the records it returns over
+    all observations are exactly the records of that segment, in order (no skip, no duplicate). Together
+    with `fragments_never_cross_segments` this is the live half of C13. -/
+def live_reader_eq_full : Prop :=
+  ∀ (ps pps : Nat) (crc : Crc), WF ps → ∀ (batches : List (List Bytes)),
+    ∀ seg ∈ segments ps (logAll ps pps crc batches), ∀ chunks : List Bytes, chunks.flatten = seg →
+      let obs := liveRun ps crc LState.init [] chunks
+      obs.length = chunks.length ∧ (∀ o ∈ obs, o.2 = LStatus.eof) ∧
+        (obs.map (·.1)).flatten = (readAll ps crc [seg]).1
+
+/-- A concrete instance (8-byte pages, 32-byte segments, checksum ≡ 7): records `[1,2,3]`, `[]`, `[9]`
+    in two batches fill the first segment to its last page and spill into a second one; the first segment
+    observed at 5, 13 and 32 bytes yields nothing, nothing, then both records. -/
+theorem live_reader_small_witness :
+    let crc : Crc := fun _ => 7
+    let segs := segments 8 (logAll 8 4 crc [[[1, 2, 3], []], [[9]]])
+    let s0 := segs.getD 0 []
+    let s1 := segs.getD 1 []
+    segs.map List.length = [32, 8] ∧
+    liveRun 8 crc LState.init [] [s0.take 5, (s0.drop 5).take 8, s0.drop 13] =
+      [([], .eof), ([], .eof), ([[1, 2, 3], []], .eof)] ∧
+    liveRun 8 crc LState.init [] [s1.take 7, s1.drop 7] = [([], .eof), ([[9]], .eof)] := by decide
 
 end Prom.C13
